@@ -106,6 +106,17 @@ def run(ctx):
         ev.append(dict(op='partitions', N=N, rows=[li(r) for r in G.get_sym_group_young_diagram(N)]))
         meta.append(('partitions', N))
         ctx.case(('partitions', N))
+    # ---- hook-length numbers beyond the enumerable range: hooks and two-row shapes of up to 33 boxes (the number of tableaux stays below
+    #      2^31 while the factorials in a naive evaluation leave 64 bits at 21 boxes)
+    for N in (5, 9, 12, 13, 16, 20, 21, 22, 25, 28, 30, 33):
+        shapes = [(N,), (1,) * N] + [(N - k,) + (1,) * k for k in (1, 2, 3) if N - k >= 2] + [(2,) + (1,) * (N - 2)] + [(N - k, k) for k in (1, 2, 3, 4) if N - k >= k and N <= 30]
+        for shape in sorted(set(shapes)):
+            ctx.case(('hookbig', shape))
+            try:
+                ev.append(dict(op='hookbig', shape=list(shape), f=int(G.get_hook_length(*shape))))
+                meta.append(('hookbig', shape))
+            except Exception as ex:
+                ctx.violation('C14:exception:get_hook_length', type(ex).__name__ + ': ' + str(ex)[:160], dict(shape=list(shape)))
     # ---- Young lattice: TLC enumerates every standard filling; both directions against get_all_young_tableaux
     r = tlc.run('group/MC_Young.tla', 'group/MC_Young_%s.cfg' % ('q' if quick else 't'), dump=True, timeout=3000)
     ctx.add_model('MC_Young(N<=%d)' % (8 if quick else 10), r)
@@ -169,8 +180,8 @@ def run(ctx):
             ctx.violation('C14:get_sym_group_num_irrep:count', 'number of irreps of S_N differs from p(N)', dict(N=e['N'], got=e['p']))
         elif e['op'] == 'partitions':
             ctx.violation('C14:get_sym_group_young_diagram:set', 'list of Young diagrams is not the set of partitions', dict(N=e['N']))
-        elif e['op'] == 'hook':
-            ctx.violation('C14:get_hook_length:value', 'hook-length number differs', dict(shape=e['shape'], got=e['f']))
+        elif e['op'] in ('hook', 'hookbig'):
+            ctx.violation('C14:get_hook_length:value', 'hook-length number differs from the %s' % ('hook length formula' if e['op'] == 'hook' else 'closed form for hooks / two-row shapes'), dict(shape=e['shape'], got=e['f']))
         else:
             ctx.violation('C14:get_all_young_tableaux:standard', 'enumerated array is not a standard Young tableau of the shape', dict(shape=e['shape'], rows=e['rows']))
     ctx.sample(dict(kind='table-event', group='sym 3', T=ev[1]['T'] if ev[1]['op'] == 'table' else None))
